@@ -16,6 +16,7 @@ checks = {
  "C10": ("exploration", EX + " (reference well-formedness R-wf)", "All environments of <= 2/3 definitions over the enumerated type space and all annotation types in signature/process/cut positions: accepted iff well-formed; Unfold of accepted names terminates."),
  "C11": ("exploration", "bounded-exhaustive enumeration of character strings, token strings and corpus edits; deterministic fuel as the promptness measure", "Every enumerated text makes ParseString return (no panic, no blocked error channel) within a fuel bound linear in its length, with a program or a non-empty error."),
  "C12": ("exploration", EX + " (independent tokenizer + Earley recognizer R-gram)", "Every enumerated text the real parser accepts is a sentence of the reference grammar with the same declarations; every illegal-character insertion is rejected."),
+ "C14": ("model_checking", MC + "; differential oracle over all admissible renamings/permutations (E-ren)", "Every admissible renaming and declaration permutation of every driver program: same verdict; same outcomes (printed multiset, completion) on the explored schedules of both polarized modes."),
  "C15": ("exploration", "bounded-exhaustive enumeration of types; print/parse round trip compared structurally", "Every well-formed type of the enumerated space, under every head mode: parse(print(T)) is structurally T (modes and branch order included); no two different types print identically."),
  "C16": ("exploration", EX + " (reference mode inference R-infer; permutation/annotation invariance)", "Every accepted environment of the enumerated space: all nodes carry one of the four modes, equal to the reference inference; verdict and modes invariant under all declaration permutations and explicit annotation."),
  "C17": ("exploration", "complete enumeration of the finite mode space against a hand-written table", "All 4 modes, 16 pairs and 64 triples, all documented spellings: order laws, converse law, monotone structural rules. The space is finite and enumerated completely."),
@@ -41,7 +42,6 @@ props = [json.loads(l)["id"] for l in open(os.path.join(V, "properties.jsonl"))]
 pending = {
  "C04": "check under construction (reference semantics R-sem); will be claimed once it runs clean",
  "C13": "check under construction (free-running -race pass over the driver corpus)",
- "C14": "check under construction (renaming/permutation enumerator exists; driver pending)",
  "C18": "check under construction (flag-matrix driver on the real binary)",
  "C19": "check under construction (history BFS inside one scheduler instance)",
 }
